@@ -228,7 +228,7 @@ theorem hist_iterMutRun_pq (n : Nat) (prog : List (ICall × IMWrite P)) : ∀ (p
     rfl
 
 /-- `iterMutRun` on a `DoublePriorityQueue`, from any machine state with `pos ≤ back ≤ n`: no fault; the outputs are
-those of the slice cursor (= `DIterMut.run`, see `hist_iterMutRun_dpq_run`) -/
+those of the slice cursor (= `DIterMut.run`, see `hist_iterMutRun_dpq_run` below) -/
 theorem hist_iterMutRun_dpq (n : Nat) (prog : List (ICall × IMWrite P)) :
     ∀ (pit : PIterMut) (dit : DIterMut) (m : IMap P), dit.pos ≤ dit.back → dit.back ≤ n →
     iterMutRun .dpq n prog pit dit m =
@@ -245,5 +245,782 @@ theorem hist_iterMutRun_dpq (n : Nat) (prog : List (ICall × IMWrite P)) :
       Cursor.run_cons, hist_applyOuts]
     rw [ih' _ hw.1 hw.2]
     rfl
+
+
+/-- the same, phrased with the machine's own run: the outputs of the program ARE `DIterMut.run` on its calls, no slot is
+yielded twice and every yielded slot lies between the two cursors -/
+theorem hist_iterMutRun_dpq_run (n : Nat) (prog : List (ICall × IMWrite P)) (pit : PIterMut) (dit : DIterMut) (m : IMap P)
+    (h1 : dit.pos ≤ dit.back) (h2 : dit.back ≤ n) :
+    ∃ outs, DIterMut.run n dit (prog.map (·.1)) = .ok outs ∧
+      iterMutRun .dpq n prog pit dit m = .ok (outs, hist_applyOuts outs (prog.map (·.2)) m) ∧
+      (slots outs).Nodup ∧ ∀ i ∈ slots outs, dit.pos ≤ i ∧ i < dit.back :=
+  ⟨_, (DIterMut.run_exec_eq_cursor n dit h1 h2 _).1, hist_iterMutRun_dpq n prog pit dit m h1 h2,
+    Cursor.slots_nodup _ _, Cursor.slots_bounds _ _⟩
+
+/-- `PriorityQueue::iter_mut` from any machine state: no slot twice, only slots `pos ≤ i < n` -/
+theorem hist_iterMutRun_pq_nodup (n : Nat) (calls : List ICall) (pit : PIterMut) :
+    (slots (PIterMut.run n pit calls)).Nodup ∧ ∀ i ∈ slots (PIterMut.run n pit calls), pit.pos ≤ i ∧ i < n := by
+  rw [PIterMut.slots_eq]
+  refine ⟨List.nodup_range', fun i hi => ?_⟩
+  have := List.mem_range'_1.1 hi
+  omega
+
+theorem hist_pIterMut_run_length (n : Nat) (calls : List ICall) : ∀ (it : PIterMut),
+    (PIterMut.run n it calls).length = calls.length := by
+  induction calls with
+  | nil => intro it; rfl
+  | cons x xs ih => intro it; simp [PIterMut.run_cons, ih]
+
+/-- **(a), all facts together.**  An `iter_mut` program run on a map `m` with the machine of either queue kind, started
+fresh (`n = m.size`): it never faults; the outputs are exactly the machine's outputs on the calls; no slot is yielded
+twice and only stored slots are yielded (C09); the map keeps its size and the key of every slot; the slot yielded by
+call `t` holds the old entry with write `t` applied, every slot not yielded is unchanged. -/
+theorem hist_iterMutRun_spec (kind : Kind) (m : IMap P) (prog : List (ICall × IMWrite P)) :
+    ∃ outs m', iterMutRun kind m.size prog PIterMut.new (DIterMut.new m.size) m = .ok (outs, m') ∧
+      (match kind with
+        | .pq => outs = PIterMut.run m.size PIterMut.new (prog.map (·.1))
+        | .dpq => DIterMut.run m.size (DIterMut.new m.size) (prog.map (·.1)) = .ok outs) ∧
+      outs.length = prog.length ∧
+      (slots outs).Nodup ∧ (∀ i ∈ slots outs, i < m.size) ∧
+      m'.size = m.size ∧
+      (∀ j : Nat, (m'[j]?).map (fun e : Item × P => e.1.key) = (m[j]?).map (fun e : Item × P => e.1.key)) ∧
+      (∀ (t j : Nat) (w : IMWrite P), outs[t]? = some (IOut.slot (some j)) → (prog[t]?).map (·.2) = some w →
+        m'[j]? = (m[j]?).map w.apply) ∧
+      (∀ j : Nat, j ∉ slots outs → m'[j]? = m[j]?) := by
+  cases kind with
+  | pq =>
+    have hnd := C09_pq_nodup m.size (prog.map (·.1))
+    refine ⟨_, _, hist_iterMutRun_pq m.size prog PIterMut.new (DIterMut.new m.size) m, rfl, ?_, hnd.1, hnd.2,
+      hist_size_applyOuts _ _ _, hist_keys_applyOuts _ _ _, ?_, fun j hj => hist_applyOuts_untouched _ _ _ j hj⟩
+    · rw [hist_pIterMut_run_length, List.length_map]
+    · intro t j w ho hw
+      exact hist_applyOuts_yielded _ _ m t j w hnd.1 ho (by rw [List.getElem?_map]; exact hw)
+  | dpq =>
+    have hrun := DIterMut.run_eq_cursor m.size (prog.map (·.1))
+    have hnd := C09_dpq_nodup m.size (prog.map (·.1)) _ hrun
+    refine ⟨_, _, hist_iterMutRun_dpq m.size prog PIterMut.new (DIterMut.new m.size) m (Nat.zero_le _) (Nat.le_refl _),
+      hrun, ?_, hnd.1, hnd.2,
+      hist_size_applyOuts _ _ _, hist_keys_applyOuts _ _ _, ?_, fun j hj => hist_applyOuts_untouched _ _ _ j hj⟩
+    · show (Cursor.run _ _).length = _
+      rw [Cursor.run_length, List.length_map]
+    · intro t j w ho hw
+      exact hist_applyOuts_yielded _ _ m t j w hnd.1 ho (by rw [List.getElem?_map]; exact hw)
+
+/-- consequence for the store: after the program the store (same tables, rewritten map) is still well-formed, keys are
+still unique and every key is still found in the same slot -/
+theorem hist_iterMutRun_wf {s : Store P} (h : s.WF) (kind : Kind) (prog : List (ICall × IMWrite P)) :
+    ∃ outs m', iterMutRun kind s.map.size prog PIterMut.new (DIterMut.new s.map.size) s.map = .ok (outs, m') ∧
+      ({ s with map := m' } : Store P).WF ∧ IMap.NoDupKeys m' ∧ m'.size = s.map.size ∧
+      (∀ k, IMap.find? m' k = IMap.find? s.map k) ∧ outs.length = prog.length := by
+  obtain ⟨outs, m', hrun, _, hlen, _, _, hsz, hkeys, _, _⟩ := hist_iterMutRun_spec kind s.map prog
+  have hnd : IMap.NoDupKeys m' := h.nodup.congr_keys hkeys
+  exact ⟨outs, m', hrun, wf_of_map_update h hsz hnd, hnd, hsz, fun k => IMap.find?_congr_keys hkeys k, hlen⟩
+
+/-! ## (b) the two invariants of a queue of either kind -/
+
+/-- the invariant of the queue kind: `WF` plus the heap order of that kind -/
+def QInv (q : Q P) : Prop :=
+  match q.kind with
+  | .pq => MaxQ.Inv q.s
+  | .dpq => DQ.Inv q.s
+
+/-- what every unchecked access trusts: the index tables are mutually inverse bijections of `0..size`, all lengths agree
+with `size`, keys are unique (no order) -/
+def QWF (q : Q P) : Prop := q.s.WF
+
+theorem QInv.wf {q : Q P} (h : QInv q) : QWF q := by
+  obtain ⟨k, s⟩ := q
+  cases k
+  · exact (h : MaxQ.Inv s).1
+  · exact (h : DQ.Inv s).1
+
+theorem hist_qinv_pq {s : Store P} : QInv ⟨.pq, s⟩ ↔ MaxQ.Inv s := Iff.rfl
+theorem hist_qinv_dpq {s : Store P} : QInv ⟨.dpq, s⟩ ↔ DQ.Inv s := Iff.rfl
+
+theorem hist_new_wf (k : Kind) : QWF (Q.new k : Q P) := wf_empty
+
+theorem hist_new_inv (k : Kind) : QInv (Q.new k : Q P) := by
+  cases k
+  · exact ⟨wf_empty, fun p hp hps => by simp [Q.new, Store.empty] at hps⟩
+  · exact DQ.inv_empty
+
+/-- the leaked guard: `iter_mut` whose `Drop` (the rebuild) never runs -/
+def Op.isLeak : Op P → Bool
+  | .iterMut true _ => true
+  | _ => false
+
+/-- the operations that end in `heap_build` (or produce an empty queue) whatever the order was before -/
+def Op.rebuilds : Op P → Bool
+  | .retainMut _ | .iterMut false _ | .fromVec _ | .fromIter _ | .deserialize _ | .convert | .append _ | .clear
+  | .drain => true
+  | _ => false
+
+/-! ## total forms of the operation-level theorems (one existential per operation, no case split) -/
+
+namespace MaxQ
+
+theorem hist_pushIncrease_wf {s : Store P} (h : s.WF) (it : Item) (p : P) :
+    ∃ s' r, pushIncrease s it p = .ok (s', r) ∧ s'.WF := by
+  obtain ⟨h0, h1, h2⟩ := pushIncrease_safe h it p
+  cases ha : s.abs it.key with
+  | none => obtain ⟨s', hp, hwf, _⟩ := h0 ha; exact ⟨s', _, hp, hwf⟩
+  | some e =>
+    by_cases hlt : e.2 < p
+    · obtain ⟨s', hp, hwf, _⟩ := h1 e ha hlt; exact ⟨s', _, hp, hwf⟩
+    · exact ⟨s.tick, _, h2 e ha hlt, tick_TWF.mpr h⟩
+
+theorem hist_pushIncrease_inv {s : Store P} (h : Inv s) (it : Item) (p : P) :
+    ∃ s' r, pushIncrease s it p = .ok (s', r) ∧ Inv s' := by
+  obtain ⟨h0, h1, h2⟩ := pushIncrease_spec h it p
+  cases ha : s.abs it.key with
+  | none => obtain ⟨s', hp, hwf, _⟩ := h0 ha; exact ⟨s', _, hp, hwf⟩
+  | some e =>
+    by_cases hlt : e.2 < p
+    · obtain ⟨s', hp, hwf, _⟩ := h1 e ha hlt; exact ⟨s', _, hp, hwf⟩
+    · exact ⟨s.tick, _, (h2 e ha hlt).1, (h2 e ha hlt).2.1⟩
+
+theorem hist_pushDecrease_wf {s : Store P} (h : s.WF) (it : Item) (p : P) :
+    ∃ s' r, pushDecrease s it p = .ok (s', r) ∧ s'.WF := by
+  obtain ⟨h0, h1, h2⟩ := pushDecrease_safe h it p
+  cases ha : s.abs it.key with
+  | none => obtain ⟨s', hp, hwf, _⟩ := h0 ha; exact ⟨s', _, hp, hwf⟩
+  | some e =>
+    by_cases hlt : p < e.2
+    · obtain ⟨s', hp, hwf, _⟩ := h1 e ha hlt; exact ⟨s', _, hp, hwf⟩
+    · exact ⟨s.tick, _, h2 e ha hlt, tick_TWF.mpr h⟩
+
+theorem hist_pushDecrease_inv {s : Store P} (h : Inv s) (it : Item) (p : P) :
+    ∃ s' r, pushDecrease s it p = .ok (s', r) ∧ Inv s' := by
+  obtain ⟨h0, h1, h2⟩ := pushDecrease_spec h it p
+  cases ha : s.abs it.key with
+  | none => obtain ⟨s', hp, hwf, _⟩ := h0 ha; exact ⟨s', _, hp, hwf⟩
+  | some e =>
+    by_cases hlt : p < e.2
+    · obtain ⟨s', hp, hwf, _⟩ := h1 e ha hlt; exact ⟨s', _, hp, hwf⟩
+    · exact ⟨s.tick, _, (h2 e ha hlt).1, (h2 e ha hlt).2.1⟩
+
+theorem hist_changePriority_wf {s : Store P} (h : s.WF) (k : Nat) (p : P) :
+    ∃ s' r, changePriority s k p = .ok (s', r) ∧ s'.WF := by
+  obtain ⟨h0, h1⟩ := changePriority_safe h k p
+  cases ha : s.abs k with
+  | none => exact ⟨s, _, h0 ha, h⟩
+  | some e => obtain ⟨s', hp, hwf, _⟩ := h1 e ha; exact ⟨s', _, hp, hwf⟩
+
+theorem hist_changePriority_inv {s : Store P} (h : Inv s) (k : Nat) (p : P) :
+    ∃ s' r, changePriority s k p = .ok (s', r) ∧ Inv s' := by
+  obtain ⟨h0, h1⟩ := changePriority_spec h k p
+  cases ha : s.abs k with
+  | none => exact ⟨s, _, h0 ha, h⟩
+  | some e => obtain ⟨s', hp, hwf, _⟩ := h1 e ha; exact ⟨s', _, hp, hwf⟩
+
+theorem hist_changePriorityBy_wf {s : Store P} (h : s.WF) (k : Nat) (g : P → P) :
+    ∃ s' r, changePriorityBy s k g = .ok (s', r) ∧ s'.WF := by
+  obtain ⟨h0, h1⟩ := changePriorityBy_safe h k g
+  cases ha : s.abs k with
+  | none => exact ⟨s, _, h0 ha, h⟩
+  | some e => obtain ⟨s', hp, hwf, _⟩ := h1 e ha; exact ⟨s', _, hp, hwf⟩
+
+theorem hist_changePriorityBy_inv {s : Store P} (h : Inv s) (k : Nat) (g : P → P) :
+    ∃ s' r, changePriorityBy s k g = .ok (s', r) ∧ Inv s' := by
+  obtain ⟨h0, h1⟩ := changePriorityBy_spec h k g
+  cases ha : s.abs k with
+  | none => exact ⟨s, _, h0 ha, h⟩
+  | some e => obtain ⟨s', hp, hwf, _⟩ := h1 e ha; exact ⟨s', _, hp, hwf⟩
+
+theorem hist_remove_wf {s : Store P} (h : s.WF) (k : Nat) : ∃ s' r, remove s k = .ok (s', r) ∧ s'.WF := by
+  obtain ⟨h0, h1⟩ := remove_safe h k
+  cases ha : s.abs k with
+  | none => exact ⟨s, _, h0 ha, h⟩
+  | some e => obtain ⟨s', hp, hwf, _⟩ := h1 e ha; exact ⟨s', _, hp, hwf⟩
+
+theorem hist_remove_inv {s : Store P} (h : Inv s) (k : Nat) : ∃ s' r, remove s k = .ok (s', r) ∧ Inv s' := by
+  obtain ⟨h0, h1⟩ := remove_spec h k
+  cases ha : s.abs k with
+  | none => exact ⟨s, _, h0 ha, h⟩
+  | some e => obtain ⟨s', hp, hwf, _⟩ := h1 e ha; exact ⟨s', _, hp, hwf⟩
+
+theorem hist_pop_wf {s : Store P} (h : s.WF) : ∃ s' r, pop s = .ok (s', r) ∧ s'.WF := by
+  obtain ⟨h0, h1⟩ := pop_safe h
+  rcases Nat.eq_zero_or_pos s.size with hz | hn
+  · exact ⟨s, _, h0 hz, h⟩
+  · obtain ⟨s', e, hp, _, hwf, _⟩ := h1 hn; exact ⟨s', _, hp, hwf⟩
+
+theorem hist_pop_inv {s : Store P} (h : Inv s) : ∃ s' r, pop s = .ok (s', r) ∧ Inv s' := by
+  obtain ⟨h0, h1⟩ := pop_spec h
+  rcases Nat.eq_zero_or_pos s.size with hz | hn
+  · exact ⟨s, _, h0 hz, h⟩
+  · obtain ⟨s', e, hp, _, _, hwf, _⟩ := h1 hn; exact ⟨s', _, hp, hwf⟩
+
+theorem hist_popIf_wf {s : Store P} (h : s.WF) (f : Item → P → Bool × Item × P)
+    (hf : ∀ it p, (f it p).2.1.key = it.key) : ∃ s' r, popIf s f = .ok (s', r) ∧ s'.WF := by
+  obtain ⟨h0, h1⟩ := popIf_safe h f hf
+  rcases Nat.eq_zero_or_pos s.size with hz | hn
+  · exact ⟨s, _, h0 hz, h⟩
+  · obtain ⟨e, _, ht, hfl⟩ := h1 hn
+    cases hr : (f e.1 e.2).1 with
+    | true => obtain ⟨s', hp, hwf, _⟩ := ht hr; exact ⟨s', _, hp, hwf⟩
+    | false => obtain ⟨s', hp, hwf, _⟩ := hfl hr; exact ⟨s', _, hp, hwf⟩
+
+theorem hist_popIf_inv {s : Store P} (h : Inv s) (f : Item → P → Bool × Item × P)
+    (hf : ∀ it p, (f it p).2.1.key = it.key) : ∃ s' r, popIf s f = .ok (s', r) ∧ Inv s' := by
+  obtain ⟨h0, h1⟩ := popIf_spec h f hf
+  rcases Nat.eq_zero_or_pos s.size with hz | hn
+  · exact ⟨s, _, h0 hz, h⟩
+  · obtain ⟨e, _, _, ht, hfl⟩ := h1 hn
+    cases hr : (f e.1 e.2).1 with
+    | true => obtain ⟨s', hp, hwf, _⟩ := ht hr; exact ⟨s', _, hp, hwf⟩
+    | false => obtain ⟨s', hp, hwf, _⟩ := hfl hr; exact ⟨s', _, hp, hwf⟩
+
+theorem hist_peekMutWrite_wf {s : Store P} (h : s.WF) (w : Item → Item) (hw : ∀ it, (w it).key = it.key) :
+    ∃ s' r, peekMutWrite s w = .ok (s', r) ∧ s'.WF := by
+  obtain ⟨h0, h1⟩ := peekMutWrite_safe h w hw
+  rcases Nat.eq_zero_or_pos s.size with hz | hn
+  · exact ⟨s, _, h0 hz, h⟩
+  · obtain ⟨s', e, hp, _, hwf, _⟩ := h1 hn; exact ⟨s', _, hp, hwf⟩
+
+theorem hist_peekMutWrite_inv {s : Store P} (h : Inv s) (w : Item → Item) (hw : ∀ it, (w it).key = it.key) :
+    ∃ s' r, peekMutWrite s w = .ok (s', r) ∧ Inv s' := by
+  obtain ⟨h0, h1⟩ := peekMutWrite_spec h w hw
+  rcases Nat.eq_zero_or_pos s.size with hz | hn
+  · exact ⟨s, _, h0 hz, h⟩
+  · obtain ⟨s', e, hp, _, _, hwf, _⟩ := h1 hn; exact ⟨s', _, hp, hwf⟩
+
+end MaxQ
+
+/-! ### `get_mut` followed by a key-preserving write (the same function for both kinds) -/
+
+/-- `get_mut` + write: total, keeps `WF`, and leaves the priority at every heap position as it was -/
+theorem hist_getMutWrite {s : Store P} (h : s.WF) (k : Nat) (w : Item → Item) (hw : ∀ it, (w it).key = it.key) :
+    (s.getMutWrite k w).1.WF ∧ (s.getMutWrite k w).1.size = s.size ∧ ∀ q, (s.getMutWrite k w).1.pr q = s.pr q := by
+  cases hl : IMap.lookup s.map k with
+  | none =>
+    rw [getMutWrite_spec_none hl w]
+    exact ⟨h, rfl, fun _ => rfl⟩
+  | some e =>
+    obtain ⟨s', pos, hg, _, hep, hwf, hsz, _, _, _, hent, _⟩ := getMutWrite_spec_some h hl w (hw e.1)
+    rw [hg]
+    refine ⟨hwf, hsz, fun q => ?_⟩
+    show s'.pr q = s.pr q
+    rw [pr_eq_entryAt, pr_eq_entryAt, hent q]
+    split
+    · subst_vars; rw [hep]; rfl
+    · rfl
+
+theorem hist_getMutWrite_maxInv {s : Store P} (h : MaxQ.Inv s) (k : Nat) (w : Item → Item)
+    (hw : ∀ it, (w it).key = it.key) : MaxQ.Inv (s.getMutWrite k w).1 := by
+  obtain ⟨hwf, hsz, hpr⟩ := hist_getMutWrite h.1 k w hw
+  exact ⟨hwf, MaxQ.maxHeap_of_prefix h.2 (Nat.le_of_eq hsz) (fun q _ => hpr q)⟩
+
+theorem hist_getMutWrite_dqInv {s : Store P} (h : DQ.Inv s) (k : Nat) (w : Item → Item)
+    (hw : ∀ it, (w it).key = it.key) : DQ.Inv (s.getMutWrite k w).1 := by
+  obtain ⟨hwf, hsz, hpr⟩ := hist_getMutWrite h.1 k w hw
+  exact ⟨hwf, DQ.minMaxHeap_congr hpr hsz h.2⟩
+
+/-! ## (c) one step keeps `QWF` — every constructor of `Op`, both kinds, leaked guards included -/
+
+/-- closes a goal `∃ q' o, step ⟨kind, s⟩ op = .ok (q', o) ∧ I q'` given the evaluation `he` of the queue-level function
+and the invariant `hI` of the resulting store -/
+local macro "hist_close " he:term ", " hI:term : tactic =>
+  `(tactic| (simp only [step, $he:term, bind, Except.bind, pure, Except.pure]; exact ⟨_, _, rfl, $hI⟩))
+
+theorem hist_step_safe {q : Q P} {op : Op P} (hq : QWF q) (hl : op.Legal) :
+    ∃ q' o, step q op = .ok (q', o) ∧ QWF q' := by
+  obtain ⟨k, s⟩ := q
+  have h : s.WF := hq
+  cases op with
+  | push it p =>
+    cases k
+    · obtain ⟨s', he, hwf, _⟩ := MaxQ.push_safe h it p; hist_close he, hwf
+    · obtain ⟨s', he, hwf, _⟩ := DQ.push_safe h it p; hist_close he, hwf
+  | pushIncrease it p =>
+    cases k
+    · obtain ⟨s', r, he, hwf⟩ := MaxQ.hist_pushIncrease_wf h it p; hist_close he, hwf
+    · obtain ⟨s', r, he, hwf, _⟩ := DQ.pushIncrease_safe h it p; hist_close he, hwf
+  | pushDecrease it p =>
+    cases k
+    · obtain ⟨s', r, he, hwf⟩ := MaxQ.hist_pushDecrease_wf h it p; hist_close he, hwf
+    · obtain ⟨s', r, he, hwf, _⟩ := DQ.pushDecrease_safe h it p; hist_close he, hwf
+  | changePriority key p =>
+    cases k
+    · obtain ⟨s', r, he, hwf⟩ := MaxQ.hist_changePriority_wf h key p; hist_close he, hwf
+    · obtain ⟨s', he, hwf, _⟩ := DQ.changePriority_safe h key p; hist_close he, hwf
+  | changePriorityBy key g =>
+    cases k
+    · obtain ⟨s', r, he, hwf⟩ := MaxQ.hist_changePriorityBy_wf h key g; hist_close he, hwf
+    · obtain ⟨s', he, hwf, _⟩ := DQ.changePriorityBy_safe h key g; hist_close he, hwf
+  | remove key =>
+    cases k
+    · obtain ⟨s', r, he, hwf⟩ := MaxQ.hist_remove_wf h key; hist_close he, hwf
+    · obtain ⟨s', he, hwf, _⟩ := DQ.remove_safe h key; hist_close he, hwf
+  | getMut key w =>
+    exact ⟨_, _, rfl, (hist_getMutWrite h key w hl).1⟩
+  | popFront =>
+    cases k
+    · obtain ⟨s', r, he, hwf⟩ := MaxQ.hist_pop_wf h; hist_close he, hwf
+    · obtain ⟨s', r, he, hwf, _⟩ := DQ.popMin_safe h; hist_close he, hwf
+  | popBack =>
+    cases k
+    · exact ⟨_, _, rfl, h⟩
+    · obtain ⟨s', r, he, hwf, _⟩ := DQ.popMax_safe h; hist_close he, hwf
+  | popFrontIf f =>
+    cases k
+    · obtain ⟨s', r, he, hwf⟩ := MaxQ.hist_popIf_wf h f hl; hist_close he, hwf
+    · obtain ⟨s', r, he, hwf, _⟩ := DQ.popMinIf_safe h f hl; hist_close he, hwf
+  | popBackIf f =>
+    cases k
+    · exact ⟨_, _, rfl, h⟩
+    · obtain ⟨s', r, he, hwf, _⟩ := DQ.popMaxIf_safe h f hl; hist_close he, hwf
+  | peekFrontMut w =>
+    cases k
+    · obtain ⟨s', r, he, hwf⟩ := MaxQ.hist_peekMutWrite_wf h w hl; hist_close he, hwf
+    · obtain ⟨s', r, he, hwf, _⟩ := DQ.peekMinMutWrite_safe h w hl; hist_close he, hwf
+  | peekBackMut w =>
+    cases k
+    · exact ⟨_, _, rfl, h⟩
+    · obtain ⟨s', r, he, hwf, _⟩ := DQ.peekMaxMutWrite_safe h w hl; hist_close he, hwf
+  | retainMut f =>
+    cases k
+    · obtain ⟨s', he, hwf, _⟩ := MaxQ.retainMut_safe h f hl; hist_close he, hwf
+    · obtain ⟨s', he, hwf, _⟩ := DQ.retainMut_safe h f hl; hist_close he, hwf
+  | iterMut leak prog =>
+    obtain ⟨outs, m', hrun, hwf1, _⟩ := hist_iterMutRun_wf h k prog
+    cases leak with
+    | true => hist_close hrun, hwf1
+    | false =>
+      cases k
+      · obtain ⟨s', he, hwf, _⟩ := MaxQ.heapBuild_safe hwf1
+        simp only [step, hrun, heapBuildK, he, bind, Except.bind, pure, Except.pure]
+        exact ⟨_, _, rfl, hwf⟩
+      · obtain ⟨s', he, hwf, _⟩ := DQ.heapBuild_safe hwf1
+        simp only [step, hrun, heapBuildK, he, bind, Except.bind, pure, Except.pure]
+        exact ⟨_, _, rfl, hwf⟩
+  | extend lo xs =>
+    cases k
+    · obtain ⟨s', he, hwf, _⟩ := MaxQ.extend_safe h lo xs; hist_close he, hwf
+    · obtain ⟨s', he, hwf, _⟩ := DQ.extend_safe h lo xs; hist_close he, hwf
+  | append xs =>
+    cases k
+    · obtain ⟨s', o', he, hwf, _⟩ := MaxQ.append_safe h (wf_fromVec xs); hist_close he, hwf
+    · obtain ⟨s', o', he, hwf, _⟩ := DQ.append_safe h (wf_fromVec xs); hist_close he, hwf
+  | fromVec xs =>
+    cases k
+    · obtain ⟨s', he, hwf, _⟩ := MaxQ.fromVec_safe xs; hist_close he, hwf
+    · obtain ⟨s', he, hwf, _⟩ := DQ.fromVec_safe xs; hist_close he, hwf
+  | fromIter xs =>
+    cases k
+    · obtain ⟨s', he, hwf, _⟩ := MaxQ.fromIter_safe xs; hist_close he, hwf
+    · obtain ⟨s', he, hwf, _⟩ := DQ.fromIter_safe xs; hist_close he, hwf
+  | deserialize xs =>
+    cases k
+    · obtain ⟨s', he, hwf, _⟩ := MaxQ.deserialize_safe xs; hist_close he, hwf
+    · obtain ⟨s', he, hwf, _⟩ := DQ.deserialize_safe xs; hist_close he, hwf
+  | convert =>
+    cases k
+    · obtain ⟨s', he, hwf, _⟩ := DQ.ofStore_safe h; hist_close he, hwf
+    · obtain ⟨s', he, hwf, _⟩ := MaxQ.ofStore_safe h; hist_close he, hwf
+  | clear => exact ⟨_, _, rfl, wf_clear s⟩
+  | drain => exact ⟨_, _, rfl, wf_drain s⟩
+  | capacityOp => exact ⟨_, _, rfl, h⟩
+
+
+/-! ## total forms for the `DoublePriorityQueue` operations under `DQ.Inv` -/
+
+namespace DQ
+
+theorem hist_pushIncrease_inv {s : Store P} (h : Inv s) (it : Item) (p : P) :
+    ∃ s' r, pushIncrease s it p = .ok (s', r) ∧ Inv s' := by
+  obtain ⟨h0, h1, h2⟩ := pushIncrease_spec h it p
+  cases ha : s.abs it.key with
+  | none => obtain ⟨s', hp, hwf, _⟩ := h0 ha; exact ⟨s', _, hp, hwf⟩
+  | some e =>
+    by_cases hlt : e.2 < p
+    · obtain ⟨s', hp, hwf, _⟩ := h1 e ha hlt; exact ⟨s', _, hp, hwf⟩
+    · exact ⟨s.tick, _, h2 e ha hlt, inv_tick h 1⟩
+
+theorem hist_pushDecrease_inv {s : Store P} (h : Inv s) (it : Item) (p : P) :
+    ∃ s' r, pushDecrease s it p = .ok (s', r) ∧ Inv s' := by
+  obtain ⟨h0, h1, h2⟩ := pushDecrease_spec h it p
+  cases ha : s.abs it.key with
+  | none => obtain ⟨s', hp, hwf, _⟩ := h0 ha; exact ⟨s', _, hp, hwf⟩
+  | some e =>
+    by_cases hlt : p < e.2
+    · obtain ⟨s', hp, hwf, _⟩ := h1 e ha hlt; exact ⟨s', _, hp, hwf⟩
+    · exact ⟨s.tick, _, h2 e ha hlt, inv_tick h 1⟩
+
+theorem hist_changePriority_inv {s : Store P} (h : Inv s) (k : Nat) (p : P) :
+    ∃ s' r, changePriority s k p = .ok (s', r) ∧ Inv s' := by
+  obtain ⟨h0, h1⟩ := changePriority_spec h k p
+  cases ha : s.abs k with
+  | none => exact ⟨s, _, h0 ha, h⟩
+  | some e => obtain ⟨s', hp, hwf, _⟩ := h1 e ha; exact ⟨s', _, hp, hwf⟩
+
+theorem hist_changePriorityBy_inv {s : Store P} (h : Inv s) (k : Nat) (g : P → P) :
+    ∃ s' r, changePriorityBy s k g = .ok (s', r) ∧ Inv s' := by
+  obtain ⟨h0, h1⟩ := changePriorityBy_spec h k g
+  cases ha : s.abs k with
+  | none => exact ⟨s, _, h0 ha, h⟩
+  | some e => obtain ⟨s', hp, hwf, _⟩ := h1 e ha; exact ⟨s', _, hp, hwf⟩
+
+theorem hist_remove_inv {s : Store P} (h : Inv s) (k : Nat) : ∃ s' r, remove s k = .ok (s', r) ∧ Inv s' := by
+  obtain ⟨h0, h1⟩ := remove_spec h k
+  cases ha : s.abs k with
+  | none => exact ⟨s, _, h0 ha, h⟩
+  | some e => obtain ⟨s', hp, hwf, _⟩ := h1 e ha; exact ⟨s', _, hp, hwf⟩
+
+theorem hist_popMin_inv {s : Store P} (h : Inv s) : ∃ s' r, popMin s = .ok (s', r) ∧ Inv s' := by
+  obtain ⟨h0, h1⟩ := popMin_spec h
+  rcases Nat.eq_zero_or_pos s.size with hz | hn
+  · exact ⟨s, _, h0 hz, h⟩
+  · obtain ⟨s', e, hp, _, _, hwf, _⟩ := h1 hn; exact ⟨s', _, hp, hwf⟩
+
+theorem hist_popMax_inv {s : Store P} (h : Inv s) : ∃ s' r, popMax s = .ok (s', r) ∧ Inv s' := by
+  obtain ⟨h0, h1⟩ := popMax_spec h
+  rcases Nat.eq_zero_or_pos s.size with hz | hn
+  · exact ⟨s, _, h0 hz, h⟩
+  · obtain ⟨k, s', e, hp, _, _, _, hwf, _⟩ := h1 hn; exact ⟨s', _, hp, hwf⟩
+
+theorem hist_popMinIf_inv {s : Store P} (h : Inv s) (f : Item → P → Bool × Item × P)
+    (hf : ∀ it p, (f it p).2.1.key = it.key) : ∃ s' r, popMinIf s f = .ok (s', r) ∧ Inv s' := by
+  obtain ⟨h0, h1⟩ := popMinIf_spec h f hf
+  rcases Nat.eq_zero_or_pos s.size with hz | hn
+  · exact ⟨s, _, h0 hz, h⟩
+  · obtain ⟨e, _, _, ht, hfl⟩ := h1 hn
+    cases hr : (f e.1 e.2).1 with
+    | true => obtain ⟨s', hp, hwf, _⟩ := ht hr; exact ⟨s', _, hp, hwf⟩
+    | false => obtain ⟨s', hp, hwf, _⟩ := hfl hr; exact ⟨s', _, hp, hwf⟩
+
+theorem hist_popMaxIf_inv {s : Store P} (h : Inv s) (f : Item → P → Bool × Item × P)
+    (hf : ∀ it p, (f it p).2.1.key = it.key) : ∃ s' r, popMaxIf s f = .ok (s', r) ∧ Inv s' := by
+  obtain ⟨h0, h1⟩ := popMaxIf_spec h f hf
+  rcases Nat.eq_zero_or_pos s.size with hz | hn
+  · exact ⟨s, _, h0 hz, h⟩
+  · obtain ⟨k, e, _, _, _, ht, hfl⟩ := h1 hn
+    cases hr : (f e.1 e.2).1 with
+    | true => obtain ⟨s', hp, hwf, _⟩ := ht hr; exact ⟨s', _, hp, hwf⟩
+    | false => obtain ⟨s', hp, hwf, _⟩ := hfl hr; exact ⟨s', _, hp, hwf⟩
+
+theorem hist_peekMinMutWrite_inv {s : Store P} (h : Inv s) (w : Item → Item) (hw : ∀ it, (w it).key = it.key) :
+    ∃ s' r, peekMinMutWrite s w = .ok (s', r) ∧ Inv s' := by
+  obtain ⟨h0, h1⟩ := peekMinMutWrite_spec h w hw
+  rcases Nat.eq_zero_or_pos s.size with hz | hn
+  · exact ⟨s, _, h0 hz, h⟩
+  · obtain ⟨s', e, hp, _, _, hwf, _⟩ := h1 hn; exact ⟨s', _, hp, hwf⟩
+
+theorem hist_peekMaxMutWrite_inv {s : Store P} (h : Inv s) (w : Item → Item) (hw : ∀ it, (w it).key = it.key) :
+    ∃ s' r, peekMaxMutWrite s w = .ok (s', r) ∧ Inv s' := by
+  obtain ⟨h0, h1⟩ := peekMaxMutWrite_spec h w hw
+  rcases Nat.eq_zero_or_pos s.size with hz | hn
+  · exact ⟨s, _, h0 hz, h⟩
+  · obtain ⟨k, s', e, hp, _, _, _, hwf, _⟩ := h1 hn; exact ⟨s', _, hp, hwf⟩
+
+end DQ
+
+/-- an emptied store satisfies both order invariants -/
+theorem hist_inv_of_empty {s : Store P} (hwf : s.WF) (h0 : s.size = 0) : MaxQ.Inv s ∧ DQ.Inv s :=
+  ⟨⟨hwf, fun p hp hps => by omega⟩, ⟨hwf, fun a d _ hd => by omega⟩⟩
+
+/-! ## (f) the rebuilding operations re-establish the order from `QWF` alone -/
+
+/-- after a leaked `iter_mut` guard (or from any other merely well-formed state) every operation that ends in
+`heap_build` — `retain`/`retain_mut`, a dropped `iter_mut` guard, `From<Vec>`, `FromIterator`, `Deserialize`, the
+conversion to the other kind, `append` — and `clear`/`drain` yield a queue satisfying the full invariant -/
+theorem hist_step_rebuild {q : Q P} {op : Op P} (hq : QWF q) (hl : op.Legal) (hr : op.rebuilds = true) :
+    ∃ q' o, step q op = .ok (q', o) ∧ QInv q' := by
+  obtain ⟨k, s⟩ := q
+  have h : s.WF := hq
+  cases op with
+  | retainMut f =>
+    cases k
+    · obtain ⟨s', he, hinv, _⟩ := MaxQ.retainMut_spec h f hl; hist_close he, hinv
+    · obtain ⟨s', he, hinv, _⟩ := DQ.retainMut_spec h f hl; hist_close he, hinv
+  | iterMut leak prog =>
+    obtain ⟨outs, m', hrun, hwf1, _⟩ := hist_iterMutRun_wf h k prog
+    cases leak with
+    | true => simp [Op.rebuilds] at hr
+    | false =>
+      cases k
+      · obtain ⟨s', he, hwf, _, _, hm⟩ := MaxQ.heapBuild_spec hwf1
+        simp only [step, hrun, heapBuildK, he, bind, Except.bind, pure, Except.pure]
+        exact ⟨_, _, rfl, (⟨hwf, hm⟩ : MaxQ.Inv s')⟩
+      · obtain ⟨s', he, hwf, _, _, hm⟩ := DQ.heapBuild_spec hwf1
+        simp only [step, hrun, heapBuildK, he, bind, Except.bind, pure, Except.pure]
+        exact ⟨_, _, rfl, (⟨hwf, hm⟩ : DQ.Inv s')⟩
+  | append xs =>
+    cases k
+    · obtain ⟨s', o', he, hinv, _⟩ := MaxQ.append_spec h (wf_fromVec xs); hist_close he, hinv
+    · obtain ⟨s', o', he, hinv, _⟩ := DQ.append_spec h (wf_fromVec xs); hist_close he, hinv
+  | fromVec xs =>
+    cases k
+    · obtain ⟨s', he, hinv, _⟩ := MaxQ.fromVec_spec xs; hist_close he, hinv
+    · obtain ⟨s', he, hinv, _⟩ := DQ.fromVec_spec xs; hist_close he, hinv
+  | fromIter xs =>
+    cases k
+    · obtain ⟨s', he, hinv, _⟩ := MaxQ.fromIter_spec xs; hist_close he, hinv
+    · obtain ⟨s', he, hinv, _⟩ := DQ.fromIter_spec xs; hist_close he, hinv
+  | deserialize xs =>
+    cases k
+    · obtain ⟨s', he, hinv, _⟩ := MaxQ.deserialize_spec xs; hist_close he, hinv
+    · obtain ⟨s', he, hinv, _⟩ := DQ.deserialize_spec xs; hist_close he, hinv
+  | convert =>
+    cases k
+    · obtain ⟨s', he, hinv, _⟩ := DQ.ofStore_spec h; hist_close he, hinv
+    · obtain ⟨s', he, hinv, _⟩ := MaxQ.ofStore_spec h; hist_close he, hinv
+  | clear =>
+    cases k
+    · exact ⟨_, _, rfl, (hist_inv_of_empty (wf_clear s) rfl).1⟩
+    · exact ⟨_, _, rfl, (hist_inv_of_empty (wf_clear s) rfl).2⟩
+  | drain =>
+    cases k
+    · exact ⟨_, _, rfl, (hist_inv_of_empty (wf_drain s) rfl).1⟩
+    · exact ⟨_, _, rfl, (hist_inv_of_empty (wf_drain s) rfl).2⟩
+  | _ => simp [Op.rebuilds] at hr
+
+/-! ## (d) one step keeps `QInv`, unless it is a leaked `iter_mut` guard -/
+
+theorem hist_step_inv {q : Q P} {op : Op P} (hq : QInv q) (hl : op.Legal) (hn : op.isLeak = false) :
+    ∃ q' o, step q op = .ok (q', o) ∧ QInv q' := by
+  by_cases hr : op.rebuilds = true
+  · exact hist_step_rebuild hq.wf hl hr
+  obtain ⟨k, s⟩ := q
+  cases op with
+  | push it p =>
+    cases k
+    · obtain ⟨s', he, hinv, _⟩ := MaxQ.push_spec hq it p; hist_close he, hinv
+    · obtain ⟨s', he, hinv, _⟩ := DQ.push_spec hq it p; hist_close he, hinv
+  | pushIncrease it p =>
+    cases k
+    · obtain ⟨s', r, he, hinv⟩ := MaxQ.hist_pushIncrease_inv hq it p; hist_close he, hinv
+    · obtain ⟨s', r, he, hinv⟩ := DQ.hist_pushIncrease_inv hq it p; hist_close he, hinv
+  | pushDecrease it p =>
+    cases k
+    · obtain ⟨s', r, he, hinv⟩ := MaxQ.hist_pushDecrease_inv hq it p; hist_close he, hinv
+    · obtain ⟨s', r, he, hinv⟩ := DQ.hist_pushDecrease_inv hq it p; hist_close he, hinv
+  | changePriority key p =>
+    cases k
+    · obtain ⟨s', r, he, hinv⟩ := MaxQ.hist_changePriority_inv hq key p; hist_close he, hinv
+    · obtain ⟨s', r, he, hinv⟩ := DQ.hist_changePriority_inv hq key p; hist_close he, hinv
+  | changePriorityBy key g =>
+    cases k
+    · obtain ⟨s', r, he, hinv⟩ := MaxQ.hist_changePriorityBy_inv hq key g; hist_close he, hinv
+    · obtain ⟨s', r, he, hinv⟩ := DQ.hist_changePriorityBy_inv hq key g; hist_close he, hinv
+  | remove key =>
+    cases k
+    · obtain ⟨s', r, he, hinv⟩ := MaxQ.hist_remove_inv hq key; hist_close he, hinv
+    · obtain ⟨s', r, he, hinv⟩ := DQ.hist_remove_inv hq key; hist_close he, hinv
+  | getMut key w =>
+    cases k
+    · exact ⟨_, _, rfl, hist_getMutWrite_maxInv hq key w hl⟩
+    · exact ⟨_, _, rfl, hist_getMutWrite_dqInv hq key w hl⟩
+  | popFront =>
+    cases k
+    · obtain ⟨s', r, he, hinv⟩ := MaxQ.hist_pop_inv hq; hist_close he, hinv
+    · obtain ⟨s', r, he, hinv⟩ := DQ.hist_popMin_inv hq; hist_close he, hinv
+  | popBack =>
+    cases k
+    · exact ⟨_, _, rfl, hq⟩
+    · obtain ⟨s', r, he, hinv⟩ := DQ.hist_popMax_inv hq; hist_close he, hinv
+  | popFrontIf f =>
+    cases k
+    · obtain ⟨s', r, he, hinv⟩ := MaxQ.hist_popIf_inv hq f hl; hist_close he, hinv
+    · obtain ⟨s', r, he, hinv⟩ := DQ.hist_popMinIf_inv hq f hl; hist_close he, hinv
+  | popBackIf f =>
+    cases k
+    · exact ⟨_, _, rfl, hq⟩
+    · obtain ⟨s', r, he, hinv⟩ := DQ.hist_popMaxIf_inv hq f hl; hist_close he, hinv
+  | peekFrontMut w =>
+    cases k
+    · obtain ⟨s', r, he, hinv⟩ := MaxQ.hist_peekMutWrite_inv hq w hl; hist_close he, hinv
+    · obtain ⟨s', r, he, hinv⟩ := DQ.hist_peekMinMutWrite_inv hq w hl; hist_close he, hinv
+  | peekBackMut w =>
+    cases k
+    · exact ⟨_, _, rfl, hq⟩
+    · obtain ⟨s', r, he, hinv⟩ := DQ.hist_peekMaxMutWrite_inv hq w hl; hist_close he, hinv
+  | extend lo xs =>
+    cases k
+    · obtain ⟨s', he, hinv, _⟩ := MaxQ.extend_spec hq lo xs; hist_close he, hinv
+    · obtain ⟨s', he, hinv, _⟩ := DQ.extend_spec hq lo xs; hist_close he, hinv
+  | capacityOp => exact ⟨_, _, rfl, hq⟩
+  | iterMut leak prog =>
+    cases leak with
+    | true => simp [Op.isLeak] at hn
+    | false => simp [Op.rebuilds] at hr
+  | _ => simp [Op.rebuilds] at hr
+
+/-! ## (e) histories -/
+
+/-- **every history of legal operations runs without fault and ends in a well-formed queue** (leaked `iter_mut` guards
+allowed anywhere) -/
+theorem hist_run_safe (ops : List (Op P)) : ∀ {q : Q P}, QWF q → (∀ op ∈ ops, op.Legal) →
+    ∃ q' outs, run q ops = .ok (q', outs) ∧ QWF q' ∧ outs.length = ops.length := by
+  induction ops with
+  | nil => intro q hq _; exact ⟨q, [], rfl, hq, rfl⟩
+  | cons op ops ih =>
+    intro q hq hl
+    obtain ⟨q1, o, h1, hq1⟩ := hist_step_safe hq (hl op (List.mem_cons_self ..))
+    obtain ⟨q2, os, h2, hq2, hlen⟩ := ih hq1 (fun op' h' => hl op' (List.mem_cons_of_mem _ h'))
+    refine ⟨q2, o :: os, ?_, hq2, by simp [hlen]⟩
+    simp only [run, h1, h2, bind, Except.bind, pure, Except.pure]
+
+/-- **every history of legal operations without a leaked guard keeps the invariant of the (final) queue kind** -/
+theorem hist_run_inv (ops : List (Op P)) : ∀ {q : Q P}, QInv q → (∀ op ∈ ops, op.Legal) →
+    (∀ op ∈ ops, op.isLeak = false) →
+    ∃ q' outs, run q ops = .ok (q', outs) ∧ QInv q' ∧ outs.length = ops.length := by
+  induction ops with
+  | nil => intro q hq _ _; exact ⟨q, [], rfl, hq, rfl⟩
+  | cons op ops ih =>
+    intro q hq hl hn
+    obtain ⟨q1, o, h1, hq1⟩ := hist_step_inv hq (hl op (List.mem_cons_self ..)) (hn op (List.mem_cons_self ..))
+    obtain ⟨q2, os, h2, hq2, hlen⟩ := ih hq1 (fun op' h' => hl op' (List.mem_cons_of_mem _ h'))
+      (fun op' h' => hn op' (List.mem_cons_of_mem _ h'))
+    refine ⟨q2, o :: os, ?_, hq2, by simp [hlen]⟩
+    simp only [run, h1, h2, bind, Except.bind, pure, Except.pure]
+
+/-- a history splits: running `a ++ b` is running `a`, then `b` from the state reached -/
+theorem hist_run_append (a b : List (Op P)) : ∀ (q : Q P) (q1 : Q P) (o1 : List (Out P)), run q a = .ok (q1, o1) →
+    run q (a ++ b) = (match run q1 b with | .ok (q2, o2) => .ok (q2, o1 ++ o2) | .error f => .error f) := by
+  induction a with
+  | nil =>
+    intro q q1 o1 h
+    simp only [run, pure, Except.pure, Except.ok.injEq, Prod.mk.injEq] at h
+    obtain ⟨rfl, rfl⟩ := h
+    simp only [List.nil_append]
+    cases run q b with
+    | error f => rfl
+    | ok x => rfl
+  | cons op a ih =>
+    intro q q1 o1 h
+    simp only [run, bind, Except.bind, pure, Except.pure, List.cons_append] at h ⊢
+    cases hs : step q op with
+    | error f => rw [hs] at h; cases h
+    | ok x =>
+      obtain ⟨q0, o⟩ := x
+      rw [hs] at h
+      simp only at h ⊢
+      cases hr : run q0 a with
+      | error f => rw [hr] at h; cases h
+      | ok y =>
+        obtain ⟨q1', o1'⟩ := y
+        rw [hr] at h
+        simp only [Except.ok.injEq, Prod.mk.injEq] at h
+        obtain ⟨rfl, rfl⟩ := h
+        rw [ih q0 q1' o1' hr]
+        cases run q1' b with
+        | error f => rfl
+        | ok z => rfl
+
+/-- **a leak is healed by the next rebuilding operation**: any legal history whose leaked guards are all followed (not
+necessarily immediately) by a rebuilding operation, with no order-dependent claim in between, ends in `QInv`.  Stated
+for the basic shape `pre ++ [rebuild] ++ post`: `pre` arbitrary (leaks allowed), `post` leak-free. -/
+theorem hist_run_heal (pre post : List (Op P)) (op : Op P) {q : Q P} (hq : QWF q)
+    (hpre : ∀ o ∈ pre, o.Legal) (hop : op.Legal) (hr : op.rebuilds = true)
+    (hpost : ∀ o ∈ post, o.Legal) (hn : ∀ o ∈ post, o.isLeak = false) :
+    ∃ q' outs, run q (pre ++ op :: post) = .ok (q', outs) ∧ QInv q' := by
+  obtain ⟨q1, o1, h1, hq1, _⟩ := hist_run_safe pre hq hpre
+  obtain ⟨q2, o, h2, hq2⟩ := hist_step_rebuild hq1 hop hr
+  obtain ⟨q3, o3, h3, hq3, _⟩ := hist_run_inv post hq2 hpost hn
+  refine ⟨q3, o1 ++ o :: o3, ?_, hq3⟩
+  rw [hist_run_append pre (op :: post) q q1 o1 h1]
+  simp only [run, h2, h3, bind, Except.bind, pure, Except.pure]
+
+
+/-- the double-ended sorted iterator IS a history of `pop_min`/`pop_max` operations (`false` = `next` = `pop_min`,
+`true` = `next_back` = `pop_max`) -/
+theorem hist_run_sortedCalls (calls : List Bool) : ∀ (s : Store P),
+    run ⟨.dpq, s⟩ (calls.map fun b => if b = true then Op.popBack else Op.popFront) =
+      (match DQ.sortedCalls calls s with
+       | .ok (outs, s') => .ok (⟨.dpq, s'⟩, outs.map Out.entry)
+       | .error f => .error f) := by
+  induction calls with
+  | nil => intro s; rfl
+  | cons b bs ih =>
+    intro s
+    cases b with
+    | false =>
+      simp only [List.map_cons, run, step, DQ.sortedCalls, bind, Except.bind, pure, Except.pure, Bool.false_eq_true,
+        if_false]
+      cases h : DQ.popMin s with
+      | error f => rfl
+      | ok x =>
+        obtain ⟨s1, r⟩ := x
+        simp only [ih s1]
+        cases DQ.sortedCalls bs s1 with
+        | error f => rfl
+        | ok y => rfl
+    | true =>
+      simp only [List.map_cons, run, step, DQ.sortedCalls, bind, Except.bind, pure, Except.pure, if_true]
+      cases h : DQ.popMax s with
+      | error f => rfl
+      | ok x =>
+        obtain ⟨s1, r⟩ := x
+        simp only [ih s1]
+        cases DQ.sortedCalls bs s1 with
+        | error f => rfl
+        | ok y => rfl
+
+/-! ## Non-vacuity: concrete programs and histories (evaluated by the kernel) -/
+section Examples
+
+/-- `r` succeeded and its value satisfies `q` -/
+def hist_okR {α : Type} (r : R α) (q : α → Prop) : Prop :=
+  match r with
+  | .ok x => q x
+  | .error _ => False
+
+instance {α : Type} (r : R α) (q : α → Prop) [DecidablePred q] : Decidable (hist_okR r q) := by
+  unfold hist_okR; split <;> infer_instance
+
+/-- the entry an operation returned, if it is of that form (`Out` has no decidable equality: closures aside, compare
+through this projection) -/
+def hist_outEntry {P : Type} : Out P → Option (Option (Item × P))
+  | .entry e => some e
+  | _ => none
+
+theorem hist_okR_iff {α : Type} {r : R α} {q : α → Prop} : hist_okR r q ↔ ∃ x, r = .ok x ∧ q x := by
+  unfold hist_okR
+  split
+  · rename_i x; exact ⟨fun h => ⟨x, rfl, h⟩, fun ⟨y, hy, hq⟩ => by cases hy; exact hq⟩
+  · exact ⟨False.elim, fun ⟨y, hy, _⟩ => by cases hy⟩
+
+private def exM : IMap Nat := #[(⟨1, 10⟩, 5), (⟨2, 20⟩, 9), (⟨3, 30⟩, 7), (⟨4, 40⟩, 1)]
+
+/-- calls from both ends with a write each; the fifth call finds the cursors met -/
+private def exProg : List (ICall × IMWrite Nat) :=
+  [(.next, ⟨some 100, none⟩), (.nextBack, ⟨none, some 44⟩), (.len, ⟨some 0, some 0⟩), (.next, ⟨some 3, some 21⟩),
+   (.nextBack, ⟨none, none⟩), (.next, ⟨some 77, some 77⟩)]
+
+-- (a) on the `DoublePriorityQueue` machine: slots 0, 3, 1, 2 once each; keys kept; write `t` lands in the slot of call `t`
+example : hist_okR (iterMutRun .dpq 4 exProg PIterMut.new (DIterMut.new 4) exM) (fun r =>
+    r.1 = [.slot (some 0), .slot (some 3), .len 2, .slot (some 1), .slot (some 2), .slot none] ∧
+    r.2 = #[(⟨1, 10⟩, 100), (⟨2, 21⟩, 3), (⟨3, 30⟩, 7), (⟨4, 44⟩, 1)]) := by decide +kernel
+-- … and on the `PriorityQueue` machine (`next_back`/`len` are not offered: those writes go nowhere)
+example : hist_okR (iterMutRun .pq 4 exProg PIterMut.new (DIterMut.new 4) exM) (fun r =>
+    r.1 = [.slot (some 0), .unsupported, .unsupported, .slot (some 1), .unsupported, .slot (some 2)] ∧
+    r.2 = #[(⟨1, 10⟩, 100), (⟨2, 21⟩, 3), (⟨3, 77⟩, 77), (⟨4, 40⟩, 1)]) := by decide +kernel
+
+/-- a history with a leaked guard in the middle: pushes, a leaked `iter_mut` that makes the root the smallest, a `pop`
+on the disordered queue, a `change_priority`, then a `retain` that heals -/
+private def exHist : List (Op Nat) :=
+  [.push ⟨1, 0⟩ 5, .push ⟨2, 0⟩ 9, .push ⟨3, 0⟩ 7, .push ⟨4, 0⟩ 1, .push ⟨5, 0⟩ 3, .pushIncrease ⟨1, 1⟩ 6,
+   .iterMut true [(.next, ⟨some 0, none⟩), (.next, ⟨some 50, some 1⟩)],
+   .popFront, .changePriority 3 2]
+
+example : ∀ op ∈ exHist, op.Legal := by
+  intro op h
+  simp only [exHist, List.mem_cons, List.not_mem_nil, or_false] at h
+  rcases h with h | h | h | h | h | h | h | h | h <;> subst h <;> exact trivial
+
+-- `hist_run_safe`: the run succeeds, the result is well-formed — but NOT ordered (key 1 with priority 0 sits above
+-- key 4 with priority 1), also after the `pop` and the `change_priority` that followed the leak
+example : hist_okR (run (Q.new .pq) exHist) (fun r => r.1.s.WF ∧ ¬ MaxQ.Inv r.1.s ∧ r.1.s.size = 4 ∧ r.2.length = 9 ∧
+    r.1.s.heap = #[1, 0, 2, 3] ∧ r.1.s.abs 1 = some (⟨1, 0⟩, 0) ∧ r.1.s.abs 4 = some (⟨4, 0⟩, 1)) := by
+  decide +kernel
+-- `hist_run_heal`: one rebuilding operation later the full invariant is back
+example : hist_okR (run (Q.new .pq) (exHist ++ [.retainMut (fun it p => (true, it, p)), .push ⟨9, 0⟩ 8]))
+    (fun r => MaxQ.Inv r.1.s ∧ r.1.s.size = 5 ∧ MaxQ.peek r.1.s = some (⟨9, 0⟩, 8)) := by decide +kernel
+-- `hist_run_inv` with a conversion inside the history: the final kind is `dpq`
+example : hist_okR (run (Q.new .pq) [.push ⟨1, 0⟩ 5, .push ⟨2, 0⟩ 9, .push ⟨3, 0⟩ 7, .convert, .popBack, .popFront])
+    (fun r => r.1.kind = .dpq ∧ r.1.s.WF ∧ r.1.s.size = 1 ∧ r.1.s.abs 3 = some (⟨3, 0⟩, 7)) := by decide +kernel
+
+end Examples
 
 end PQ
